@@ -626,6 +626,55 @@ func linWalk(paths []linPath, list []ast.Stmt, visit func(p linPath, st ast.Stmt
 				}
 			}
 		case *ast.IfStmt:
+			// if err := check(a, b); err != nil { … }: the checks of a validator of the package hold afterwards
+			if as, ok := x.Init.(*ast.AssignStmt); ok && len(as.Lhs) == 1 && len(as.Rhs) == 1 {
+				if call, ok := ast.Unparen(as.Rhs[0]).(*ast.CallExpr); ok {
+					if b, ok := ast.Unparen(x.Cond).(*ast.BinaryExpr); ok && (b.Op == token.NEQ || b.Op == token.EQL) {
+						l, lok := ast.Unparen(b.X).(*ast.Ident)
+						r, rok := ast.Unparen(b.Y).(*ast.Ident)
+						v, vok := ast.Unparen(as.Lhs[0]).(*ast.Ident)
+						if lok && rok && vok && l.Name == v.Name && r.Name == "nil" && len(paths) > 0 {
+							if t := paths[0].env.info.TypeOf(v); t != nil && isErrorType(t) {
+								var out []linPath
+								all := true
+								for _, p := range paths {
+									visit(p, as)
+									rs, ok := linInline(p, call, 1, visit)
+									if !ok {
+										all = false
+										break
+									}
+									for _, lr := range rs {
+										np := linPath{env: p.env.clone(), sys: append(linSys{}, lr.sys...)}
+										np.env.facts = append(np.env.facts, lr.facts...)
+										if np.known().infeasible() {
+											continue
+										}
+										isNil := lr.ok[0] && lr.res[0].isConst() && lr.res[0].c == 0
+										takeBody := isNil == (b.Op == token.EQL)
+										if takeBody {
+											out = append(out, linWalk([]linPath{np}, x.Body.List, visit)...)
+										} else {
+											switch el := x.Else.(type) {
+											case *ast.BlockStmt:
+												out = append(out, linWalk([]linPath{np}, el.List, visit)...)
+											case *ast.IfStmt:
+												out = append(out, linWalk([]linPath{np}, []ast.Stmt{el}, visit)...)
+											default:
+												out = append(out, np)
+											}
+										}
+									}
+								}
+								if all {
+									paths = out
+									continue
+								}
+							}
+						}
+					}
+				}
+			}
 			if x.Init != nil {
 				paths = linWalk(paths, []ast.Stmt{x.Init}, visit)
 			}
@@ -1017,7 +1066,9 @@ func linInline(p linPath, call *ast.CallExpr, nres int, visit func(p linPath, st
 	}
 	// only callees computing integers / booleans are worth their paths: inlining a function that builds a record
 	// (Subsequence, with its dozen branches, called under 84 paths) multiplies the enumeration for nothing
-	for i := 0; i < sig.Results().Len(); i++ {
+	// (a validator — one result, of type error — is followed too: nil is 0, anything else 1)
+	isValidator := nres == 1 && sig.Results().Len() == 1 && isErrorType(sig.Results().At(0).Type())
+	for i := 0; i < sig.Results().Len() && !isValidator; i++ {
 		b, isBasic := sig.Results().At(i).Type().Underlying().(*types.Basic)
 		if !isBasic || (b.Info()&types.IsInteger == 0 && b.Kind() != types.Bool) {
 			return nil, false
@@ -1100,6 +1151,16 @@ func linInline(p linPath, call *ast.CallExpr, nres int, visit func(p linPath, st
 		q.env.cur = q.sys
 		lr := linReturn{sys: append(linSys{}, q.sys...), res: make([]linForm, nres), ok: make([]bool, nres)}
 		for k, re := range r.Results {
+			if isValidator {
+				if id, isId := ast.Unparen(re).(*ast.Ident); isId && id.Name == "nil" {
+					lr.res[k], lr.ok[k] = lfConst(0), true
+				} else if _, isCall := ast.Unparen(re).(*ast.CallExpr); isCall {
+					lr.res[k], lr.ok[k] = lfConst(1), true // fmt.Errorf(…), errors.New(…): not nil
+				} else {
+					okAll = false
+				}
+				continue
+			}
 			lr.res[k], lr.ok[k] = q.env.form(re, 0)
 		}
 		lr.facts = append(linSys{}, q.env.facts...)
